@@ -77,7 +77,8 @@ class OsProxy:
         return self._rec.replace(src, dst)
 
     def __getattr__(self, n):
-        return getattr(os.path if n in ("join", "getmtime", "abspath", "isabs", "dirname", "basename", "normpath") else os, n)
+        # the proxy stands for both `os` and `os.path`: names that only os.path has go there
+        return getattr(os, n) if hasattr(os, n) else getattr(os.path, n)
 
 
 class JsonProxy:
